@@ -1,11 +1,14 @@
 package res
 
 import (
+	"fmt"
 	"testing"
 
 	"pgregory.net/rapid"
 
 	"verif/lib/evid"
+	"verif/lib/host"
+	"verif/lib/prog"
 	"verif/lib/resgen"
 )
 
@@ -45,6 +48,10 @@ func TestC49(t *testing.T) {
 	}
 	var cnt c02Counters
 	rapid.Check(t, func(rt *rapid.T) {
+		if resgen.FromRapid(rt).Intn(4) == 0 { // drawn from rapid so that a replay takes the same branch
+			checkStructAtt(rt, rec, resgen.GenStructAttCase(resgen.FromRapid(rt)))
+			return
+		}
 		h := resgen.Generate(resgen.FromRapid(rt), opts)
 		st := h.Stats
 		nontrivial := st.TwoAtts >= 1 && st.AttStorage >= 1 && (st.AttRemove >= 1 || st.AttBaseDestr >= 1)
@@ -57,4 +64,54 @@ func TestC49(t *testing.T) {
 		checkHistory(rt, rec, h, &cnt, histMode{id: "C49", nontrivial: nontrivial, payloads: true, tolerateFR3: fr3})
 	})
 	finishHealth(t, rec, &cnt)
+}
+
+// TestC49 part 2 is run from TestC49Struct's body (called by TestC49): struct attachments have
+// value semantics — attach copies the base, every copy carries its own attachments.
+func checkStructAtt(rt fataler, rec *evid.Rec, c *resgen.StructAttCase) {
+	fail := func(e host.Engine, i int, f string, a ...any) {
+		rt.Fatalf("C49/struct [%v] step %d: %s\n%s", e, i, fmt.Sprintf(f, a...), c.Prog.String())
+	}
+	for _, e := range host.Engines {
+		rs, _ := prog.Run(nil, c.Prog, host.Options{Engine: e, NoAtreeValidation: noAtreeValidation})
+		for i, r := range rs {
+			exp := c.Expect[i]
+			info := host.Classify(r)
+			if r.Panic != nil {
+				fail(e, i, "Go panic escaped the runtime: %v", r.Panic)
+			}
+			if isCheckerReject(info) {
+				rec.Class("struct:checker-rejected")
+				rec.Class("reject:" + firstErrLine(r))
+				if rec.WantSample("struct-rejected") {
+					rec.Sample("struct-rejected", map[string]any{"error": errText(r), "source": c.Prog.Steps[i].Source})
+				}
+				rec.Case(false, c.Prog.Key())
+				return
+			}
+			if exp.Fails {
+				if r.Err == nil {
+					fail(e, i, "second attach of the same attachment type succeeded")
+				}
+				if info.Class != "user" || !info.HasType(exp.FailKind) {
+					fail(e, i, "expected %s, got %s %s: %s", exp.FailKind, info.Class, info.Root, errText(r))
+				}
+				continue
+			}
+			if r.Err != nil {
+				fail(e, i, "model expects success: %s", errText(r))
+			}
+			if !equalS(r.Logs, exp.Logs) {
+				fail(e, i, "logs %v, model expects %v", r.Logs, exp.Logs)
+			}
+		}
+	}
+	st := c.Stats
+	rec.Case(st.TwoAtts >= 1 && st.Storage >= 1 && st.Remove >= 1, c.Prog.Key())
+	rec.Class("struct:accepted")
+	for k, v := range map[string]int{"attach": st.Attach, "remove": st.Remove, "copy": st.Copies, "storage": st.Storage, "two": st.TwoAtts, "duplicate-attach": st.Fails} {
+		if v > 0 {
+			rec.Class("struct:" + k)
+		}
+	}
 }
